@@ -563,8 +563,8 @@ impl<Aux> Vm<'_, Aux> {
                         .push(val)
                         .map_err(|_| ExecutionErrorPayload::Stackoverflow)
                         .map_err(|err| {
-                            // free the object on Stackoverflow
-                            self.runtime_data.free_object(obj.0);
+                            // the object stays in the object list and is reclaimed by the
+                            // collector / by clear() like any other unreachable object
                             payload_to_error(err, src_ptr, &self.runtime_data.call_stack)
                         })?;
                 }
@@ -585,8 +585,8 @@ impl<Aux> Vm<'_, Aux> {
                         .push(val)
                         .map_err(|_| ExecutionErrorPayload::Stackoverflow)
                         .map_err(|err| {
-                            // free the object on Stackoverflow
-                            self.runtime_data.free_object(obj.0);
+                            // the object stays in the object list and is reclaimed by the
+                            // collector / by clear() like any other unreachable object
                             payload_to_error(err, src_ptr, &self.runtime_data.call_stack)
                         })?;
                 }
@@ -607,8 +607,8 @@ impl<Aux> Vm<'_, Aux> {
                         .push(val)
                         .map_err(|_| ExecutionErrorPayload::Stackoverflow)
                         .map_err(|err| {
-                            // free the object on Stackoverflow
-                            self.runtime_data.free_object(obj.0);
+                            // the object stays in the object list and is reclaimed by the
+                            // collector / by clear() like any other unreachable object
                             payload_to_error(err, src_ptr, &self.runtime_data.call_stack)
                         })?;
                 }
